@@ -279,4 +279,32 @@ def SilentExpiry (cfg : Cfg) : List Bytes → List Ev → List Op → Prop
         ∀ e' ∈ hist, limKeyOf cfg e' = some k → bucketOf cfg e'.now + cfg.count ≤ bucketOf cfg e.now) ∧
     SilentExpiry cfg (match limKeyOf cfg e with | some k => k :: live | none => live) (e :: hist) ops
 
+/-! ### the limiters map on the wall clock -/
+
+/-- the events of an op sequence of the map -/
+def mevs : List MOp → List Ev
+  | [] => []
+  | .ev e :: t => e :: mevs t
+  | .tick _ :: t => mevs t
+
+/-- one clock drives everything, as in production (`nowFn` = `time.Now`, maintenance reads
+    `time.Now`): `cur` = time (µs) of the last maintenance iteration (the map's generation), `last` =
+    clock (ns) of the last event. Events happen at or after the last maintenance iteration and at
+    most `δ` ns after it (`δ` = the longest gap between two maintenance iterations: how stale a
+    generation stamp can be); maintenance iterations and events never go back in time; the clock is
+    at least one retained window after the epoch (`nowOK`). -/
+def ClockOK (cfg : Cfg) (δ : Int) : Int → Int → List MOp → Prop
+  | _, _, [] => True
+  | cur, last, .ev e :: ops =>
+    last ≤ e.now ∧ cur * 1000 ≤ e.now ∧ e.now ≤ cur * 1000 + δ ∧
+      (cfg.count : Int) * cfg.interval ≤ e.now ∧ ClockOK cfg δ cur e.now ops
+  | cur, last, .tick t :: ops => cur ≤ t ∧ last ≤ t * 1000 ∧ ClockOK cfg δ t last ops
+
+/-- key `k` is accessed at least once per expiration: at every maintenance iteration `t` the
+    generation `g` in which `k` was last accessed (`none`: never) satisfies `t - g < exp` -/
+def BusyKey (cfg : Cfg) (exp : Int) (k : Bytes) : Int → Option Int → List MOp → Prop
+  | _, _, [] => True
+  | cur, s, .ev e :: ops => BusyKey cfg exp k cur (if limKeyOf cfg e = some k then some cur else s) ops
+  | _, s, .tick t :: ops => (∀ g, s = some g → t - g < exp) ∧ BusyKey cfg exp k t s ops
+
 end FileD.SpecC16
